@@ -202,8 +202,10 @@ class RoundTripCheck(Check):
         stride = 1 if tier == "thorough" else self.stride_q.get(name, 1)
         for stratum, _idx, data in archlab.deterministic(arch, tier, part, nparts, stride, self.block):
             self.one(res, arch, stratum, data, state)
-        nrand = self.nrand_t if tier == "thorough" else self.nrand_q
-        n = nrand // nparts + (1 if part < nrand % nparts else 0)
+        if tier == "thorough":
+            n = self.nrand_t // nparts + (1 if part < self.nrand_t % nparts else 0)
+        else:
+            n = self.nrand_q if part == 0 else 0      # one Hypothesis start-up per architecture
         if n > 0:
             hyp.survey(archlab.random_strategy(arch), n, seed, lambda d: self.one(res, arch, "random", d, state))
         self.end(res, arch, tier)
